@@ -10,8 +10,11 @@ SESSION.json: {"cfg": {...}, "histories": [{"id", "ue", "org", "steps"}]}
         order of construction), per ([Lx, Ly, Lz] lattice periods, 0 = none:
         a DomainManager is passed to the Interpolator; all histories of such
         a session share ue and org)
-  a step = {"act", "src", "pts", "lin"} - the abstract state AFTER the action
-        (spec/Interp.tla part 6), integers on the lattice.
+  a step = {"act", "src", "pts", "prop", "lin"} - the abstract state AFTER
+        the action (spec/Interp.tla part 6), integers on the lattice; a
+        source array {"name", "props", "p"} gets exactly the user properties
+        listed in props ("f", "g"); an Interpolate step calls
+        interpolate(prop) - prop may be a name no array has.
 ONE real object (one generated + compiled evaluator) serves the whole
 session: the first "Reset" constructs it, later ones call
 update_particle_arrays(new arrays) + set_interpolation_points(new points).
@@ -116,6 +119,25 @@ def install_mutant(name):
                 self._c14_first = True
                 self.func_eval.update_particle_arrays(arrays)
         Interpolator.update_particle_arrays = upa
+    elif name == 'stale-staging':
+        # interpolate() leaves the staging property of an array that lacks
+        # the requested property as the previous call left it
+        import inspect
+        import textwrap
+        src = textwrap.dedent(inspect.getsource(Interpolator.interpolate))
+        if src.count('data = 0.0') != 1:
+            raise SystemExit('mutant stale-staging: pattern not found')
+        ns = dict(interp_mod.__dict__)
+        exec(src.replace('data = 0.0', 'continue'), ns)
+        Interpolator.interpolate = ns['interpolate']
+    elif name == 'no-update-domain':
+        # update() skips update_domain() (which also recomputes the cell
+        # size of the neighbour search) when there is no domain manager
+        def upd(self, update_domain=True):
+            if update_domain and self.domain_manager is not None:
+                self.nnps.update_domain()
+            self.nnps.update()
+        Interpolator.update = upd
     elif name == 'no-nnps-update':
         # update() does not refresh the neighbour search
         Interpolator.update = lambda self, update_domain=True: None
@@ -187,8 +209,10 @@ class Session(object):
         y = np.array([self.real(q['y'], self.org[1]) for q in p])
         z = np.array([self.real(q['z'], self.org[2]) for q in p])
         h = np.array([math.ldexp(float(q['h']), self.ue) for q in p])
+        # only the user properties the abstract array HAS exist on the real one
+        user = dict((key, g(key)) for key in a['props'])
         pa = get_particle_array(name=a['name'], x=x, y=y, z=z, h=h,
-                                m=g('m'), rho=g('rho'), f=g('f'))
+                                m=g('m'), rho=g('rho'), **user)
         if self.cfg['api'] == 'eval':
             pa.add_property('temp_prop')
         return pa
@@ -219,8 +243,9 @@ class Session(object):
             p = []
             for k in (0, 1):
                 c = [k if j < dim else 0 for j in range(3)]
-                p.append(dict(x=c[0], y=c[1], z=c[2], h=1, m=1, rho=1, f=0))
-            out.append(dict(name=a['name'], p=p))
+                p.append(dict(x=c[0], y=c[1], z=c[2], h=1, m=1, rho=1, f=0,
+                              g=0))
+            out.append(dict(name=a['name'], props=a['props'], p=p))
         return out
 
     def construct(self, s):
@@ -302,7 +327,7 @@ class Session(object):
             self.obj.update()
         elif act == 'SetValues':
             for pa, a in zip(self.arrays, s['src']):
-                for key in ('m', 'rho', 'f'):
+                for key in ['m', 'rho'] + list(a['props']):
                     pa.get(key)[:] = [float(q[key]) for q in a['p']]
             if any(cfg.get('per') or ()):
                 # periodic images are copies made by update(): refresh them
@@ -321,18 +346,19 @@ class Session(object):
         # W_real = 4^ue W_lattice for the probe kernel
         sh0 = -2 * self.ue if (probe and unnorm) else 0
         if cfg['api'] == 'eval':
-            for pa in self.arrays:
-                pa.temp_prop[:] = pa.f
+            for pa in self.arrays:      # (the evaluator's user stages data)
+                pa.temp_prop[:] = pa.get(s['prop'])
             self.obj.evaluate()
             vals = np.array(self.dst.prop)
             return [[conv(vals[i], sh0)] for i in range(npts)]
         if cfg['method'] != 'order1':
-            vals = np.atleast_1d(self.obj.interpolate('f')).ravel()
+            vals = np.atleast_1d(self.obj.interpolate(s['prop'])).ravel()
             if len(vals) != npts:
                 raise SystemExit('driver: %d values for %d points' % (
                     len(vals), npts))
             return [[conv(vals[i], sh0)] for i in range(npts)]
-        comps = [np.atleast_1d(self.obj.interpolate('f', comp=c)).ravel()
+        comps = [np.atleast_1d(self.obj.interpolate(s['prop'],
+                                                    comp=c)).ravel()
                  for c in range(4)]
         return [[conv(comps[c][i], 0 if c == 0 else self.ue)
                  for c in range(4)] for i in range(npts)]
